@@ -684,3 +684,48 @@ func MustExecBefore(start ssa.Instruction, target func(ssa.Instruction) bool, st
 	}
 	return true, nil
 }
+
+// ReachesWithout reports whether some CFG path from right after start reaches a block satisfying head without first
+// executing an instruction satisfying target (paths that leave the function are not of interest).
+func ReachesWithout(start ssa.Instruction, target func(ssa.Instruction) bool, head func(*ssa.BasicBlock) bool) bool {
+	b := start.Block()
+	idx := 0
+	for i, ins := range b.Instrs {
+		if ins == start {
+			idx = i + 1
+		}
+	}
+	for _, ins := range b.Instrs[idx:] {
+		if target(ins) {
+			return false
+		}
+	}
+	seen := map[*ssa.BasicBlock]bool{}
+	var walk func(blk *ssa.BasicBlock) bool
+	walk = func(blk *ssa.BasicBlock) bool {
+		if head(blk) {
+			return true
+		}
+		if seen[blk] {
+			return false
+		}
+		seen[blk] = true
+		for _, ins := range blk.Instrs {
+			if target(ins) {
+				return false
+			}
+		}
+		for _, s := range blk.Succs {
+			if walk(s) {
+				return true
+			}
+		}
+		return false
+	}
+	for _, s := range b.Succs {
+		if walk(s) {
+			return true
+		}
+	}
+	return false
+}
